@@ -1,6 +1,6 @@
 //! C04 (rpc), C09 (chclose), C01 (wire) scenarios.
 use crate::scenarios::*;
-use amiquip::{Channel, ConnectionOptions, ConnectionTuning, ConsumerOptions, FieldTable, Publish, QueueDeclareOptions, QueueDeleteOptions};
+use amiquip::{Channel, ConnectionOptions, ConnectionTuning, ConsumerOptions, ExchangeDeclareOptions, ExchangeType, FieldTable, Publish, QueueDeclareOptions, QueueDeleteOptions};
 use amq_protocol::frame::{AMQPContentHeader, AMQPFrame};
 use amq_protocol::protocol::{basic, AMQPClass};
 use serde_json::{json, Value};
@@ -94,6 +94,28 @@ fn run_op(ctx: &Ctx, ch: &Channel, name: &str, chan: u16, seq: u32) -> (String, 
             let r2 = ch.queue_purge("q").map_err(|e| err_name(&e));
             (format!("{:?} then {:?}", r1, r2), expected_only(name, chan, seq).1)
         }
+        "nowait_handles" => {
+            // twelve requests, every one a nowait variant reached through a Queue / Exchange handle
+            // (or the channel): none of them waits, each goes out with its nowait bit set
+            let t = FieldTable::new();
+            let mut r: Vec<String> = Vec::new();
+            let mut note = |what: &str, x: Result<(), amiquip::Error>| r.push(format!("{}={}", what, if x.is_ok() { "Ok".to_string() } else { err_name(&x.unwrap_err()) }));
+            match (ch.queue_declare_nowait("hq", QueueDeclareOptions::default()), ch.exchange_declare_nowait(ExchangeType::Direct, "xa", ExchangeDeclareOptions::default()), ch.exchange_declare_nowait(ExchangeType::Fanout, "xb", ExchangeDeclareOptions::default())) {
+                (Ok(q), Ok(xa), Ok(xb)) => {
+                    note("q.bind", q.bind_nowait(&xa, "k", t.clone()));
+                    note("x.bind_src", xa.bind_to_source_nowait(&xb, "k", t.clone()));
+                    note("x.bind_dst", xa.bind_to_destination_nowait(&xb, "k", t.clone()));
+                    note("x.unbind_src", xa.unbind_from_source_nowait(&xb, "k", t.clone()));
+                    note("x.unbind_dst", xa.unbind_from_destination_nowait(&xb, "k", t.clone()));
+                    note("q.purge", q.purge_nowait());
+                    note("q.delete", q.delete_nowait(QueueDeleteOptions::default()));
+                    note("x.delete", xb.delete_nowait(false));
+                    note("confirm", ch.enable_publisher_confirms_nowait());
+                }
+                _ => r.push("declare failed".into()),
+            }
+            (r.join(" "), "q.bind=Ok x.bind_src=Ok x.bind_dst=Ok x.unbind_src=Ok x.unbind_dst=Ok q.purge=Ok q.delete=Ok x.delete=Ok confirm=Ok".to_string())
+        }
         "declare_nowait" => (format!("{:?}", ch.queue_declare_nowait("nw", QueueDeclareOptions::default()).map(|q| q.name().to_string()).map_err(|e| err_name(&e))), "Ok(\"nw\")".into()),
         "purge_nowait" => (format!("{:?}", ch.queue_purge_nowait("q").map_err(|e| err_name(&e))), "Ok(())".into()),
         "bind_nowait" => (format!("{:?}", ch.queue_bind_nowait("q", "x", "k", FieldTable::new()).map_err(|e| err_name(&e))), "Ok(())".into()),
@@ -117,6 +139,7 @@ fn expected_only(name: &str, chan: u16, seq: u32) -> ((), String) {
         "purge_then_closed" => format!("{:?} then {:?}", Ok::<u32, String>(a), Err::<u32, String>(format!("ServerClosedChannel({},406,PRECONDITION_FAILED - after the reply)", chan))),
         "handle_ops" => format!("declared (Some(0), Some(0)) purge {:?} get Ok(None) delete {:?}", Ok::<u32, String>(StdBroker::reply_values(chan, seq + 1).0), Ok::<u32, String>(StdBroker::reply_values(chan, seq + 3).0)),
         "qos" | "recover" | "bind" | "confirm" | "declare_nowait" | "purge_nowait" | "bind_nowait" | "delete_nowait" | "publish" => "Ok(())".to_string(),
+        "nowait_handles" => "q.bind=Ok x.bind_src=Ok x.bind_dst=Ok x.unbind_src=Ok x.unbind_dst=Ok q.purge=Ok q.delete=Ok x.delete=Ok confirm=Ok".to_string(),
         "get_empty" => "Ok(None)".to_string(),
         _ => String::new(),
     };
@@ -127,6 +150,7 @@ fn seqs_used(op: &str) -> u32 {
     match op {
         "consume_cancel" | "consume_srv_cancel" => 2,
         "handle_ops" => 4,
+        "nowait_handles" => 12,
         "publish" => 0, // a publish is not a request the broker numbers (Basic.Publish has no reply)
         _ => 1,
     }
@@ -150,6 +174,7 @@ impl Scenario for Rpc {
             json!({"programs": [["get_msg", "purge"], ["get_empty", "get_msg"], ["declare", "get_msg"]], "hold": true}),
             json!({"programs": [["handle_ops", "purge"], ["purge", "handle_ops"]], "hold": true}),
             json!({"programs": [["purge", "purge_then_closed"], ["declare", "purge"], ["purge", "declare"]], "hold": true}),
+            json!({"programs": [["nowait_handles", "purge"], ["declare_nowait", "purge_nowait", "bind_nowait", "delete_nowait", "declare"]], "hold": true}),
             json!({"programs": [["purge_then_closed"], ["declare", "purge", "delete"]], "hold": false}),
             // channel ids closed and opened again (explicitly and by the allocator, channel_max 2)
             // before the calls: a reply must still find the channel that asked
@@ -307,6 +332,54 @@ impl Scenario for Rpc {
         let main = o.logs.get("main").cloned().unwrap_or_default();
         if main != vec!["close -> Ok".to_string()] {
             v.push(("rpc:close".into(), format!("main log {:?}", main)));
+        }
+        // the nowait bit on the wire: set by the nowait variants, clear on their synchronous
+        // twins (channels whose programs consist of ops with a fixed list of such methods)
+        let fixed = |op: &str| -> Option<Vec<(u16, u16, bool)>> {
+            Some(match op {
+                "declare" | "declare_auto" | "declare_passive" => vec![(50, 10, false)],
+                "purge" => vec![(50, 30, false)],
+                "delete" => vec![(50, 40, false)],
+                "bind" => vec![(50, 20, false)],
+                "confirm" => vec![(85, 10, false)],
+                "handle_ops" => vec![(50, 10, false), (50, 30, false), (50, 40, false)],
+                "declare_nowait" => vec![(50, 10, true)],
+                "purge_nowait" => vec![(50, 30, true)],
+                "bind_nowait" => vec![(50, 20, true)],
+                "delete_nowait" => vec![(50, 40, true)],
+                "nowait_handles" => vec![(50, 10, true), (40, 10, true), (40, 10, true), (50, 20, true), (40, 30, true), (40, 30, true), (40, 40, true), (40, 40, true), (50, 30, true), (50, 40, true), (40, 20, true), (85, 10, true)],
+                "qos" | "recover" | "get_empty" | "get_msg" | "publish" => vec![],
+                _ => return None,
+            })
+        };
+        let nowait_bit = |class: u16, method: u16| -> Option<u8> {
+            Some(match (class, method) {
+                (40, 10) | (50, 10) => 4,
+                (40, 20) => 1,
+                (40, 30) | (40, 40) | (50, 20) | (50, 30) | (85, 10) => 0,
+                (50, 40) => 2,
+                _ => return None,
+            })
+        };
+        let (envs, _) = wire_frames(o);
+        for i in 1..=n {
+            let ops: Vec<String> = p["programs"][i - 1].as_array().unwrap().iter().map(|x| x.as_str().unwrap().to_string()).collect();
+            let want: Option<Vec<(u16, u16, bool)>> = ops.iter().map(|op| fixed(op)).collect::<Option<Vec<_>>>().map(|x| x.concat());
+            let want = match want {
+                Some(w) => w,
+                None => continue,
+            };
+            let mut got: Vec<(u16, u16, bool)> = Vec::new();
+            for e in envs.iter().filter(|e| e.chan == i as u16 && e.ty == 1) {
+                if let Ok((c, m, Some(bits))) = vh::wire::request_bits(&e.payload) {
+                    if let Some(b) = nowait_bit(c, m) {
+                        got.push((c, m, bits & (1 << b) != 0));
+                    }
+                }
+            }
+            if got != want {
+                v.push(("rpc:nowait-bits".into(), format!("channel {}: (class, method, nowait) of the requests on the wire {:?} expected {:?}", i, got, want)));
+            }
         }
         v
     }
@@ -655,9 +728,14 @@ impl Scenario for PubWire {
         // CancelOk belongs to channel 1's frames and must not split a message
         // (chmax: the server's channel_max - no limit, and a limit just above frame_max; the body
         // frames are cut by frame_max whatever the other negotiated numbers are)
-        vec![json!({"stall": null}), json!({"stall": 400}), json!({"stall": 5000}), json!({"stall": null, "cancel": true}), json!({"stall": null, "chmax": 0}), json!({"stall": 400, "chmax": 4097})]
+        vec![json!({"stall": null}), json!({"stall": 400}), json!({"stall": 5000}), json!({"stall": null, "cancel": true}), json!({"stall": null, "chmax": 0}), json!({"stall": 400, "chmax": 4097}),
+            // fine mode: a publisher refills its queue (bound 2) while the I/O thread is taking from it
+            json!({"stall": null, "fine": true})]
     }
-    fn bound(&self, tier: &str, _p: &Value) -> usize {
+    fn bound(&self, tier: &str, p: &Value) -> usize {
+        if p["fine"] == true {
+            return if tier == "thorough" { 2 } else { 1 };
+        }
         if tier == "thorough" {
             3
         } else {
@@ -676,9 +754,13 @@ impl Scenario for PubWire {
             broker.pushes.push(Push::new("srv-cancel", vec![AMQPFrame::Method(1, AMQPClass::Basic(basic::AMQPMethod::Cancel(basic::Cancel { consumer_tag: "ctag-1-2".into(), nowait: false })))]).when_channel(1, 2));
         }
         let mut cfg = EnvConfig::default();
-        cfg.write_cuts = !cancel;
+        cfg.write_cuts = !cancel && p["fine"] != true;
         cfg.write_cut_limit = 2;
         cfg.grant_menu = vec![1];
+        cfg.fine = p["fine"] == true;
+        if cfg.fine {
+            cfg.max_steps = 40000;
+        }
         if let Some(n) = p["stall"].as_u64() {
             cfg.stall_after = Some(n as usize);
         }
